@@ -171,11 +171,21 @@ func cmdCheck(args []string) {
 		for _, m := range r.Inconclusive {
 			inconcl = append(inconcl, r.Harness+": "+m)
 		}
+		reportedKnown := map[string]bool{}
+		confirmedKey := map[string]bool{}
+		failedKey := map[string]string{}
 		for j, v := range r.Violations {
 			if kf := matchKnown(known, id, r.Harness, v); kf != nil {
 				v.Known = kf.What
-				fmt.Printf("KNOWN-FINDING: property=%s %s\n", id, kf.What)
+				if !reportedKnown[kf.What] {
+					reportedKnown[kf.What] = true
+					fmt.Printf("KNOWN-FINDING: property=%s %s\n", id, kf.What)
+				}
 				continue
+			}
+			vkey := v.Kind + "|" + v.Label + "|" + strings.Join(v.Tags, ",")
+			if confirmedKey[vkey] {
+				continue // another model of an already confirmed violation
 			}
 			dir := filepath.Join(rdir, fmt.Sprintf("%s-%d", r.Harness, j))
 			confirmed, out := replay(l, todo[i], v, dir)
@@ -195,12 +205,18 @@ func cmdCheck(args []string) {
 			v.Confirmed = confirmed
 			if confirmed {
 				nViol++
+				confirmedKey[vkey] = true
+				delete(failedKey, vkey)
 				fmt.Printf("VIOLATION property=%s replay=%s\n", id, dir)
 				fmt.Printf("  harness=%s kind=%s label=%q\n", r.Harness, v.Kind, v.Label)
 				exit = 1
 			} else {
-				inconcl = append(inconcl, fmt.Sprintf("%s: solver model for %q did not replay natively (%s)", r.Harness, v.Label, firstLine(out)))
+				// try the next model of the same violation (up to MaxViolations are kept)
+				failedKey[vkey] = fmt.Sprintf("%s: solver model for %q did not replay natively (%s)", r.Harness, v.Label, firstLine(out))
 			}
+		}
+		for _, msg := range failedKey {
+			inconcl = append(inconcl, msg)
 		}
 	}
 	nWitness := 0
